@@ -241,7 +241,38 @@ func isErrorType(ty types.Type) bool {
 	return types.Identical(ty, types.Universe.Lookup("error").Type())
 }
 
+func isString(ty types.Type) bool {
+	b, ok := ty.Underlying().(*types.Basic)
+	return ok && (b.Kind() == types.String || b.Kind() == types.UntypedString)
+}
+
+// isBoolList: []bool / [N]bool (list bool): only len and range are supported on it.
+func isBoolList(ty types.Type) bool {
+	switch u := ty.Underlying().(type) {
+	case *types.Slice:
+		return isBool(u.Elem())
+	case *types.Array:
+		return isBool(u.Elem())
+	}
+	return false
+}
+
+// isBytePtr: *byte (*uint8), the start of a run of bytes in memory: option (list Z), the bytes
+// from that address on. Only nil tests, unsafe.Slice(p, n) and unsafe.SliceData(s) use it.
+func isBytePtr(ty types.Type) bool {
+	p, ok := ty.Underlying().(*types.Pointer)
+	if !ok {
+		return false
+	}
+	b, ok := p.Elem().Underlying().(*types.Basic)
+	return ok && b.Kind() == types.Uint8
+}
+
+// isBytes: []T / [N]T with T an integer type, and string (its bytes; immutable in Go).
 func isBytes(ty types.Type) bool {
+	if isString(ty) {
+		return true
+	}
 	switch u := ty.Underlying().(type) {
 	case *types.Slice:
 		_, ok := intKind(u.Elem())
@@ -266,6 +297,9 @@ func isSlice(ty types.Type) bool {
 }
 
 func elemKind(ty types.Type) ikind {
+	if isString(ty) {
+		return ikind{false, 8}
+	}
 	switch u := ty.Underlying().(type) {
 	case *types.Slice:
 		k, _ := intKind(u.Elem())
@@ -324,7 +358,7 @@ func isAbstractBytes(ty types.Type) bool {
 }
 
 func (t *tr2) typeOK(ty types.Type) bool {
-	if isBool(ty) || isBytes(ty) || isErrorType(ty) || isAbstractBytes(ty) {
+	if isBool(ty) || isBytes(ty) || isErrorType(ty) || isAbstractBytes(ty) || isBoolList(ty) || isBytePtr(ty) {
 		return true
 	}
 	if _, ok := intKind(ty); ok {
@@ -356,7 +390,12 @@ func (t *tr2) record(n *types.Named) *recInfo {
 	st := n.Underlying().(*types.Struct)
 	for i := 0; i < st.NumFields(); i++ {
 		f := st.Field(i)
-		ok := t.typeOK(f.Type()) && !f.Embedded()
+		ok := t.typeOK(f.Type())
+		if f.Embedded() {
+			// an embedded struct (by value) is an ordinary field named after its type
+			_, _, isS := namedStruct(f.Type())
+			ok = ok && isS
+		}
 		if ok {
 			// make sure nested records are declared first
 			if nn, _, isS := namedStruct(f.Type()); isS {
@@ -394,6 +433,12 @@ func (t *tr2) ctype(n ast.Node, ty types.Type) string {
 	}
 	if isBytes(ty) || isAbstractBytes(ty) {
 		return "(list Z)"
+	}
+	if isBoolList(ty) {
+		return "(list bool)"
+	}
+	if isBytePtr(ty) {
+		return "(option (list Z))"
 	}
 	if isErrorType(ty) {
 		return "goerror"
@@ -440,8 +485,11 @@ func (t *tr2) zero(n ast.Node, ty types.Type) string {
 	if ln, ok := isArray(ty); ok && isBytes(ty) {
 		return fmt.Sprintf("(go_zeros %d)", ln)
 	}
-	if isBytes(ty) || isAbstractBytes(ty) {
+	if isBytes(ty) || isAbstractBytes(ty) || isBoolList(ty) {
 		return "[]"
+	}
+	if isBytePtr(ty) {
+		return "None"
 	}
 	if isErrorType(ty) {
 		return "ErrNil"
@@ -709,8 +757,10 @@ func (t *tr2) function(fd *ast.FuncDecl) string {
 	t.sig = sig
 	t.tmp = 0
 	t.fresh = map[types.Object]bool{}
-	t.checkShadow(fd)
-	t.findFresh(fd)
+	if !t.stubOnly { // a refused body is not looked at again: only the signature matters for the stub
+		t.checkShadow(fd)
+		t.findFresh(fd)
+	}
 	params := []string{}
 	if r := sig.Recv(); r != nil {
 		nm := r.Name()
